@@ -473,6 +473,7 @@ def check_unit(ctx, d, name, text, lang, plat, stmts, szt, nums, dbg=None, use_p
         ctx.count('hist_typed_nodes_per_statement', min(judged, 20))
         if judged >= 3:
             ctx.trivial_or(sha1(lines[line - 1] + plat.name))
+            ctx.sample({'statement': lines[line - 1].strip(), 'platform': plat.name, 'typed_nodes_judged': judged})
     return judged_total
 
 
